@@ -204,6 +204,38 @@ where
         let id = h.last();
         no_panic(h, "blind_proof_gen", o.class(), id);
     }
+    // a genuine blind proof (3 signer + 2 committed messages) with hostile index combinations:
+    // out-of-range signer indexes combined with in-range committed ones and vice versa
+    {
+        let cm = rand_msgs(h, 2);
+        if let Some(run) = honest_issue::<CS>(h, &sk, &pk, None, &msgs, &cm, true) {
+            if let Some(bp) = super::gen_blind::honest_blind_proof::<CS>(h, &pk, &run, None, None, &msgs, &cm, &[0], &[1], true) {
+                let dis: Vec<Vec<usize>> = vec![vec![0], vec![0, 6], vec![6], vec![7], vec![5], vec![0, 1, 2, 3], vec![4, 5, 6], vec![1 << 32], vec![m], vec![0, m], vec![2, 1, 0, 9]];
+                let dcis: Vec<Vec<usize>> = vec![vec![1], vec![0], vec![], vec![0, 1], vec![2], vec![m], vec![1, 0]];
+                for di in &dis {
+                    for dci in &dcis {
+                        for lv in [Some(3usize), Some(2), Some(4), None] {
+                            if lv != Some(3) && (di.len() > 2 || dci.len() > 1) && !thorough {
+                                continue;
+                            }
+                            let dm = rand_msgs(h, di.len());
+                            let dcm = rand_msgs(h, dci.len());
+                            let o = blindproofverify::<CS>(h, &pk, &bp, None, None, lv, Some(&dm), Some(&dcm), Some(di), Some(dci));
+                            let id = h.last();
+                            no_panic(h, "blind_proof_verify_combo", o.class(), id);
+                        }
+                    }
+                }
+                // the plain proof with the same shapes
+                for di in &dis {
+                    let dm = rand_msgs(h, di.len());
+                    let o = proofverify::<CS>(h, &pk, &p, None, None, Some(&dm), Some(di));
+                    let id = h.last();
+                    no_panic(h, "proof_verify_combo", o.class(), id);
+                }
+            }
+        }
+    }
     // proof_gen with byte strings that are not signatures
     for len in [0usize, 1, 79, 80, 81, 160] {
         for c in 0..3 {
@@ -463,6 +495,61 @@ where
             w[47] = x;
             w[0] = 0x80 | sort;
             strict(h, "pk", &w, "g2_smallx_c1");
+        }
+    }
+    // public-key COORDINATES of points that are on the curve but outside the prime-order subgroup,
+    // off the curve, or the identity
+    let mut non_subgroup = 0;
+    for x in 0u8..40 {
+        for sort in [0u8, 0x20] {
+            let mut v = [0u8; 96];
+            v[95] = x;
+            v[0] = 0x80 | sort;
+            if let Some(pt) = Option::<G2Affine>::from(G2Affine::from_compressed_unchecked(&v)) {
+                let in_subgroup: bool = pt.is_torsion_free().into();
+                let u = pt.to_uncompressed();
+                let (xx, yy) = u.split_at(96);
+                let o = pkfromcoords(h, xx.try_into().unwrap(), yy.try_into().unwrap());
+                let id = h.last();
+                if !in_subgroup {
+                    non_subgroup += 1;
+                    h.stat("C09.coords_non_subgroup");
+                    h.expect(!o.is_ok(), "C09.coords_subgroup", "from_coordinates accepted an on-curve point outside the prime-order subgroup", &[id]);
+                }
+                // the same point through the octet codec
+                let mut c = pt.to_compressed();
+                let o2 = dec(h, "pk", &c);
+                if !in_subgroup {
+                    h.expect(!o2.is_ok(), "C09.octets_subgroup", "from_bytes accepted an on-curve point outside the prime-order subgroup", &[h.last()]);
+                }
+                c[0] ^= 0x20;
+                dec(h, "pk", &c);
+            }
+        }
+    }
+    h.expect(non_subgroup >= 4, "C09.coords_generator", "could not construct non-subgroup G2 points (harness problem)", &[]);
+    let idu = G2Affine::identity().to_uncompressed();
+    let (ix, iy) = idu.split_at(96);
+    let o = pkfromcoords(h, ix.try_into().unwrap(), iy.try_into().unwrap());
+    h.expect(!o.is_ok(), "C09.coords_identity", "from_coordinates accepted the identity", &[h.last()]);
+    // same for G1 points inside signatures / commitments
+    for x in 0u8..40 {
+        let mut v = [0u8; 48];
+        v[47] = x;
+        v[0] = 0x80;
+        if let Some(pt) = Option::<G1Affine>::from(G1Affine::from_compressed_unchecked(&v)) {
+            let in_subgroup: bool = pt.is_torsion_free().into();
+            if !in_subgroup {
+                let mut s2 = hon.sig.clone();
+                s2[..48].copy_from_slice(&pt.to_compressed());
+                must_reject(h, "sig", &s2, "g1_non_subgroup");
+                let mut c2 = hon.commit.clone();
+                c2[..48].copy_from_slice(&pt.to_compressed());
+                must_reject(h, "commit", &c2, "g1_non_subgroup");
+                let mut p2 = hon.proof.clone();
+                p2[48..96].copy_from_slice(&pt.to_compressed());
+                must_reject(h, "proof", &p2, "g1_non_subgroup");
+            }
         }
     }
     let _ = thorough;
